@@ -28,9 +28,21 @@ KNOWN = [
     ("C20", "codec-library/inflate64-encoder-memory",
      "inflate64's Deflater alone (no py7zr code) retains about 1 MiB per MiB it is fed (400 MiB in -> 403 MiB RSS rise): writing members above roughly 700 MiB with Deflate64 exceeds the "
      "budget. Third-party native code."),
+    ("C20", "codec-library/inflate64-decoder-memory",
+     "inflate64's Inflater alone (no py7zr code) retains about 0.7 MiB per MiB of output (600 MiB out -> 407 MiB RSS rise): extracting or testing Deflate64 members above roughly 1 GiB "
+     "exceeds the budget although py7zr takes the output in bounded pieces. Third-party native code."),
     ("C05", "interpreter-died/crash:SIGABRT/coder-030401-props-*ffffffff",
      "a PPMd coder whose 5-byte property declares a 4 GiB model (mem=0xFFFFFFFF): when that allocation fails (address-space limit, little free memory) pyppmd aborts the process "
      "('double free or corruption') instead of raising MemoryError. Input: reference-written archive with coder 030401 and props ffffffffff / 06ffffffff. Third-party native code."),
+    ("C05", "codec-library/pyppmd-decoder-deadlock",
+     "a PPMd folder whose header declares more output than the stream holds (hostile unpack size, damaged or truncated stream): py7zr has to keep asking the decoder, and pyppmd 1.1.1's "
+     "threaded Ppmd7Decoder, asked to decode past the true end, starts worker threads it never joins (one leaked thread per call, then MemoryError) and after some hundreds of such archives "
+     "in one interpreter blocks for good in Ppmd7T_decode (main thread and decoder thread both wait for a mutex nobody holds; gdb stack in DESIGN.md). Reproduced without py7zr's loops by "
+     "calling decode() after the output is complete. PPMd7 has no end marker and Ppmd7Decoder.eof is also true in the middle of valid streams, so py7zr cannot tell the cases apart. The "
+     "runner files a no-progress block under this key only when the innermost Python frame is PpmdDecompressor.decompress and the input was not a valid archive."),
+    ("C04", "codec-library/pyppmd-decoder-deadlock", "same pyppmd defect as C05, reachable with a corrupted PPMd stream."),
+    ("C13", "codec-library/pyppmd-decoder-deadlock", "same pyppmd defect as C05, reachable with a damaged PPMd stream."),
+    ("C15", "codec-library/pyppmd-decoder-deadlock", "same pyppmd defect as C05, reachable with a truncated PPMd archive."),
 ]
 
 # commit subject (exact) -> (properties, what failed)
